@@ -752,7 +752,10 @@ mods = {'CTL': CTL, 'LTL': LTL, 'CTLS': CTLS}
 def build():
     return Kripke(S=[states[i] for i in order], R=[(states[a], states[b]) for a in order for b in order if (a, b) in R],
                   L={states[i]: set([names[a] for a in L[i]] + list(junk)) for i in order})
+FAIR = %(fair)r                    # fairness sets (state indices) the symbolic run passed as F, None if it passed no F
 def run(logic, formula, K, **kw):
+    if FAIR is not None and 'F' not in kw:
+        kw['F'] = [set(states[i] for i in P) for P in FAIR]
     try:
         return mods[logic].modelcheck(K, formula, **kw)
     except Exception as e:
@@ -782,8 +785,13 @@ def gen_replay(pid, rec, model, body, opts=None):
     states = opts.get('states') or list(range(n))
     names = opts.get('label_pool') or {a: a for a in aps}
     order = rec.get('perm') or list(range(n))
+    fair = None
+    if opts.get('fair') is not None:
+        mm = dict(model or {})
+        mm.update(rec.get('fixed') or {})
+        fair = [[i for i in range(n) if (True if opts.get('fair_const') else mm.get('f%d_%d' % (k_, i)))] for k_ in range(opts['fair'])]
     src = GEN_REPLAY % dict(root=ROOT, n=n, R=R, L=L, states=repr(states), order=list(order), junk=repr(list(opts.get('junk') or [])),
-                            names=names, body=body, pid=pid)
+                            names=names, body=body, pid=pid, fair=fair)
     path = write_replay(pid, src)
     ok, out = run_replay(path)
     return (path if ok else None), out
